@@ -135,6 +135,74 @@ def r2(c):
     c.ob('client/connect-name', 'self' in names and q.is_name(hc, cn.args[2], 'socket'), 'the handshake is started with the configured server name on the given socket', str(sorted(names)), cn.loc())
 
 
+def role_loop_form(b, ok_exits):
+    """the other natural way to write "exactly one role": a loop over the extensions that remembers the role found,
+    refuses a second one, and returns the remembered role after the loop.
+        let mut found = None;  for ext in exts { if let ModbusRole(r) = ext.content { if found.is_some() { return Err } found = Some(r) } }
+        match found { Some(r) => Ok(r), None => Err }"""
+    sw = [(e, v, info) for e, v, info in b.variant_edges() if info['adt'].endswith('SpecificExtension')]
+    role_edges = [e for e, v, _ in sw if v == 'ModbusRole']
+    if not role_edges or not ok_exits:
+        return (False, 'no match on SpecificExtension in the function')
+    # the variable: the Ok payload derives from (X as Some).0 for a user variable X with several definitions
+    s = q.sem(b, ok_exits[0]['rv']['a'][0])
+    cl = b.op_closure(ok_exits[0]['rv']['a'][0])
+    cands = [l for l in b.user_locals_named() if ('l', l) in cl and len(b.whole_defs(l)) >= 2]
+    for l in cands:
+        ds = b.whole_defs(l)
+        inits = [d for d in ds if d[0] == 'assign' and d[2]['rv']['r'] == 'agg' and d[2]['rv'].get('variant') == 'None']
+        def is_some_def(d):
+            if d[0] != 'assign':
+                return False
+            rv = d[2]['rv']
+            if rv['r'] == 'agg':
+                return rv.get('variant') == 'Some'
+            if rv['r'] == 'use':
+                sv = q.sem(b, rv['a'][0])
+                return sv.kind == 'agg' and isinstance(sv.extra, dict) and sv.extra.get('variant') == 'Some' and not sv.proj
+            return False
+        sets = [d for d in ds if is_some_def(d)]
+        if len(inits) != 1 or len(sets) != 1 or len(ds) != 2:
+            continue
+        setn = ('b', sets[0][1])
+        if not b.in_cycle(setn) or b.in_cycle(('b', inits[0][1])) or not q.dominated_by_any(b, role_edges, setn):
+            continue
+        # guarded: the assignment is reached only when X is still None
+        tests = [cs for cs in b.calls('core::option::Option::is_some', 'core::option::Option::is_none') if q.sem(b, cs.args[0]).kind == 'place' and q.sem(b, cs.args[0]).local == l]
+        empty_edges, full_edges = [], []
+        for cs in tests:
+            be = q.bool_edges(b, cs)
+            if cs.is_('core::option::Option::is_some'):
+                empty_edges += be['false']
+                full_edges += be['true']
+            else:
+                empty_edges += be['true']
+                full_edges += be['false']
+        for e, v, info in b.variant_edges('core::option::Option'):
+            ps = q.sem(b, info['place'])
+            if ps.kind == 'place' and ps.local == l and not ps.proj and b.in_cycle(e):
+                (empty_edges if v == 'None' else full_edges).append(e)
+        full_in_loop = [e for e in full_edges if b.in_cycle(e) or any(b.in_cycle(p) for p in b.pred.get(e, []))]
+        if not q.dominated_by_any(b, empty_edges, setn) or not full_in_loop:
+            continue
+        # a second role (X already Some, inside the ModbusRole arm) can only end in an error
+        exs = q.exits(b)
+        bad = False
+        for e in full_in_loop:
+            if not q.dominated_by_any(b, role_edges, e):
+                continue
+            rs = b.reach_set(e)
+            reached = [x for x in exs if x['node'] in rs]
+            if not reached or not all(q.exit_is_failure(b, x) for x in reached) or setn in rs:
+                bad = True
+        if bad:
+            continue
+        # after the loop: Ok only with the remembered value
+        okv = all(not b.in_cycle(x['node']) for x in ok_exits) and len(ok_exits) == 1
+        return (okv, 'variable %s remembers the role; a second role ends in an error; the role returned is the remembered one' % (b.name_of(l) or l))
+    return (False, 'no role-remembering variable of the expected shape')
+
+
 @rule('C09', 'R09.3', 'role extraction: the end-entity certificate, exactly one Modbus role extension', needs=HAS_TLS)
 def r3(c):
     P = c.P
@@ -153,7 +221,12 @@ def r3(c):
             cl = b.op_closure(x['rv']['a'][0])
             ok = ok and any(y[0] == 'call' and y[2] == first.block for y in cl)
         ok = ok and q.same_value(b, first.args[0], second.args[0]) or (ok and set(q.chain_names(b, first.args[0])) & set(q.chain_names(b, second.args[0])))
-    c.ob('exactly-one', ok, 'Ok(role) requires a first role extension and no second one; the role returned is the first', '%d next() calls, %d Ok exits' % (len(nx), len(xs)), loc_of(b))
+    loop_form = None
+    if not ok:
+        loop_form = role_loop_form(b, xs)
+        ok = loop_form[0]
+    c.ob('exactly-one', ok, 'Ok(role) requires a first role extension and no second one; the role returned is the first',
+         '%d next() calls, %d Ok exits%s' % (len(nx), len(xs), '; loop form: ' + loop_form[1] if loop_form else ''), loc_of(b))
     # filter closure: only ModbusRole
     cls = [x for x in P.nested(b.path) if x is not b and x.kind == 'Closure']
     fm = None
@@ -162,7 +235,10 @@ def r3(c):
         if sw:
             fm = (cb, sw)
     okf = fm is not None
-    if okf:
+    if fm is None and loop_form is not None and loop_form[0]:
+        okf = True      # the loop form tests the variant itself (checked by role_loop_form)
+        fm = None
+    if fm is not None:
         cb, sw = fm
         some = [x for x in q.exits(cb) if x['kind'] == 'agg' and x['variant'] == 'Some']
         role_edges = [e for e, v, _ in sw if v == 'ModbusRole']
